@@ -205,6 +205,8 @@ def run_shard(sh):
   T.castuse_stream(sh, "sv", 6 if sh.tier == "quick" else 50, mech)
   T.feedback_stream(sh, "sv", 4 if sh.tier == "quick" else 40, mech)
   T.consttbl_stream(sh, "sv", 4 if sh.tier == "quick" else 40, mech)
+  T.ifcportlist_stream(sh, "sv", 3 if sh.tier == "quick" else 30, mech)
+  T.wrapstruct_stream(sh, "sv", 3 if sh.tier == "quick" else 30, mech)
   T.constuse_stream(sh, "sv", 4 if sh.tier == "quick" else 40, mech)
   T.localname_stream(sh, "sv", 4 if sh.tier == "quick" else 40, mech)
   T.nested_ifc_stream(sh, "sv", 3, mech)
